@@ -65,8 +65,9 @@ func dagpbNode(links []pbLink, data []byte) []byte {
 }
 
 type blockSet struct {
-	order []cid.Cid
-	data  map[string][]byte
+	order     []cid.Cid
+	data      map[string][]byte
+	rawLeaves bool
 }
 
 func newBlockSet() *blockSet { return &blockSet{data: map[string][]byte{}} }
